@@ -81,6 +81,23 @@ class PairList:
         self.a0, self.a1, self.length = a0, a1, length
 
 
+class TripleRel:
+    """list of lists of (int, int) tuples, abstracted to the relation {(d, a, b)}: order and multiplicity of the entries are dropped."""
+
+    def __init__(self, has, length):
+        self.has, self.length = has, length
+
+    def member(self, d, a, b):
+        return z3.Select(z3.Select(z3.Select(self.has, d), a), b)
+
+
+class RelRow:
+    """one inner list of a TripleRel"""
+
+    def __init__(self, rel, d):
+        self.rel, self.d = rel, d
+
+
 class Opaque:
     """Value of an expression outside the subset, in `opaque_ok` (block extraction) mode: completely unconstrained.  Every integer / boolean
     observation of it is a fresh unconstrained term, so whatever the real expression computes is covered (sound over-approximation for
@@ -94,6 +111,7 @@ I = z3.IntSort()
 A1 = z3.ArraySort(I, I)
 A2 = z3.ArraySort(I, A1)
 AB = z3.ArraySort(I, z3.ArraySort(I, z3.BoolSort()))
+ABB = z3.ArraySort(I, AB)
 
 _fresh = [0]
 
@@ -113,6 +131,8 @@ def fresh_like(name, v):
         return PairDict(fresh(name + "_has", AB), fresh(name + "_val", A2))
     if isinstance(v, PairList):
         return PairList(fresh(name + "_0", A1), fresh(name + "_1", A1), fresh(name + "_len"))
+    if isinstance(v, TripleRel):
+        return TripleRel(fresh(name + "_rel", ABB), v.length)
     if isinstance(v, Small):
         s = Small(v.shape)
         if len(v.shape) == 1:
@@ -236,6 +256,10 @@ class ExprEval:
         for op, l, r in zip(n.ops, terms, terms[1:]):
             if isinstance(op, (ast.In, ast.NotIn)):
                 key, cont = self.ev(l), self.ev(r)
+                if isinstance(cont, RelRow) and isinstance(key, tuple) and len(key) == 2:
+                    t = cont.rel.member(as_int(cont.d), as_int(key[0]), as_int(key[1]))
+                    parts.append(t if isinstance(op, ast.In) else z3.Not(t))
+                    continue
                 if isinstance(cont, PairDict) and isinstance(key, tuple) and len(key) == 2:
                     t = z3.Select(z3.Select(cont.has, as_int(key[0])), as_int(key[1]))
                     parts.append(t if isinstance(op, ast.In) else z3.Not(t))
@@ -286,12 +310,15 @@ class ExprEval:
             for k in range(len(base) - 2, -1, -1):
                 out = z3.If(as_int(i) == k, as_int(base[k]), out)
             return out
+        if isinstance(base, TripleRel):
+            return RelRow(base, as_int(self.ev(idx[0])))
         if isinstance(base, Arr2):
             if len(idx) == 1 and not isinstance(idx[0], ast.Slice):
                 w = z3.simplify(as_int(base.shape[1]))
+                i = as_int(self.ev(idx[0]))
                 if z3.is_int_value(w):
-                    i = as_int(self.ev(idx[0]))
                     return tuple(base.get(i, z3.IntVal(j)) for j in range(w.as_long()))
+                return Arr1(lambda j, b=base, i=i: b.get(i, j), as_int(base.shape[1]))
             if len(idx) != 2:
                 raise Unsupported("row access of a 2-d array")
             s0, s1 = idx
@@ -372,7 +399,14 @@ class ExprEval:
                 return z3.IntVal(v.shape[0])
             if isinstance(v, Arr2):
                 return as_int(v.shape[0])
+            if isinstance(v, TripleRel):
+                return v.length
             raise Unsupported("len of %s" % type(v).__name__)
+        if name == "tuple" and len(n.args) == 1:
+            v = self.ev(n.args[0])
+            if isinstance(v, (RelRow, tuple)):
+                return v
+            raise Unsupported("tuple() of this value")
         if name == "ncols":
             v = self.ev(n.args[0])
             if isinstance(v, PairList):
@@ -407,6 +441,14 @@ class ExprEval:
             v = self.ev(n.args[0])
             if isinstance(v, Small) and len(v.shape) == 1:
                 v = tuple(v.data)
+            if isinstance(v, Arr2) and name == "max":
+                # maximum of all entries of a non-empty 2-d array: an upper bound that is attained
+                m, qi, qj, wi, wj = fresh("max"), fresh("i"), fresh("j"), fresh("wi"), fresh("wj")
+                r, c = as_int(v.shape[0]), as_int(v.shape[1])
+                self.engine.curpath = self.engine.curpath + [
+                    z3.ForAll([qi, qj], z3.Implies(z3.And(0 <= qi, qi < r, 0 <= qj, qj < c), v.get(qi, qj) <= m)),
+                    z3.Implies(z3.And(r > 0, c > 0), z3.And(0 <= wi, wi < r, 0 <= wj, wj < c, v.get(wi, wj) == m))]
+                return m
             if isinstance(v, tuple) and v:
                 m = fresh(name)
                 items = [as_int(x) for x in v]
@@ -565,6 +607,15 @@ class Engine:
             if isinstance(st.value, ast.Call) and isinstance(st.value.func, ast.Attribute) and st.value.func.attr == "append":
                 lst = ExprEval(env, self).ev(st.value.func.value)
                 item = ExprEval(env, self).ev(st.value.args[0])
+                if isinstance(lst, RelRow) and isinstance(item, tuple) and len(item) == 2 and isinstance(st.value.func.value, ast.Subscript) and isinstance(st.value.func.value.value, ast.Name):
+                    rel, d = lst.rel, as_int(lst.d)
+                    self.bounds(d, rel.length, self.curpath, st.lineno, st.value.func.value.value.id)
+                    a, b = as_int(item[0]), as_int(item[1])
+                    row = z3.Select(rel.has, d)
+                    new = z3.Store(rel.has, d, z3.Store(row, a, z3.Store(z3.Select(row, a), b, z3.BoolVal(True))))
+                    env = dict(env)
+                    env[st.value.func.value.value.id] = TripleRel(new, rel.length)
+                    return [(env, self.curpath)]
                 if not isinstance(lst, PairList) or not (isinstance(item, tuple) and len(item) == 2):
                     raise Unsupported("append on this container")
                 env = dict(env)
@@ -686,6 +737,10 @@ class Engine:
             raise Unsupported("allocation of this shape")
         if isinstance(node, ast.List) and not node.elts:
             return PairList(fresh("lst0", A1), fresh("lst1", A1), z3.IntVal(0))
+        if (isinstance(node, ast.ListComp) and isinstance(node.elt, ast.List) and not node.elt.elts and len(node.generators) == 1
+                and isinstance(node.generators[0].iter, ast.Call) and getattr(node.generators[0].iter.func, "id", None) == "range" and not node.generators[0].ifs):
+            n = as_int(ExprEval(env, self).ev(node.generators[0].iter.args[0]))
+            return TripleRel(z3.K(I, z3.K(I, z3.K(I, z3.BoolVal(False)))), n)
         return ExprEval(env, self).ev(node)
 
     def assign(self, target, val, env, path, line):
@@ -703,6 +758,13 @@ class Engine:
             base = env[target.value.id]
             ee = ExprEval(env, self)
             idx = ee.index_list(target)
+            if isinstance(base, TripleRel):
+                if not isinstance(val, RelRow):
+                    raise Unsupported("store of a non-list into a list of lists")
+                d = as_int(ee.ev(idx[0]))
+                self.bounds(d, base.length, path, line, target.value.id)
+                env[target.value.id] = TripleRel(z3.Store(base.has, d, z3.Select(val.rel.has, as_int(val.d))), base.length)
+                return env
             if isinstance(base, PairDict):
                 key = ee.ev(idx[0])
                 k0, k1 = as_int(key[0]), as_int(key[1])
@@ -799,6 +861,9 @@ class Engine:
             arr = None
         elif isinstance(it, ast.Call) and isinstance(it.func, ast.Name) and it.func.id == "enumerate":
             arr = ee.ev(it.args[0])
+            if isinstance(arr, TripleRel):
+                rel = arr
+                arr = Arr1(lambda i, rel=rel: RelRow(rel, i), rel.length)
             if not isinstance(arr, Arr1):
                 raise Unsupported("enumerate over a non-array")
             n = arr.length
@@ -883,6 +948,9 @@ class Engine:
                     out |= self.target_names(node.target)
                 if isinstance(node, ast.Call) and isinstance(node.func, ast.Attribute) and node.func.attr == "append" and isinstance(node.func.value, ast.Name):
                     out.add(node.func.value.id)
+                if (isinstance(node, ast.Call) and isinstance(node.func, ast.Attribute) and node.func.attr == "append" and isinstance(node.func.value, ast.Subscript)
+                        and isinstance(node.func.value.value, ast.Name)):
+                    out.add(node.func.value.value.id)
         return out
 
     def target_names(self, t):
